@@ -174,12 +174,16 @@ fn question_menu(svcs: &[RefSvc], extra_names: &[Name]) -> Vec<Q> {
     push(n("_t._tcp.local"));
     push(n("_s._sub._t._tcp.local"));
     push(n("_u._udp.local"));
+    // subtype questions nobody may answer: a subtype of the type whose service has none, and
+    // another subtype of the type whose service has one
+    push(n("_s._sub._u._udp.local"));
+    push(n("_x._sub._t._tcp.local"));
     push(n(META));
     push(n("one._t._tcp.local"));
     push(n("two._u._udp.local"));
     push(n("host.local"));
     push(n("other.local"));
-    let base: Vec<Name> = ["_t._tcp.local", "_s._sub._t._tcp.local", "_u._udp.local", META, "one._t._tcp.local", "two._u._udp.local", "host.local", "other.local"].iter().map(|x| n(x)).collect();
+    let base: Vec<Name> = ["_t._tcp.local", "_s._sub._t._tcp.local", "_u._udp.local", "_s._sub._u._udp.local", "_x._sub._t._tcp.local", META, "one._t._tcp.local", "two._u._udp.local", "host.local", "other.local"].iter().map(|x| n(x)).collect();
     let mut seen: Vec<Name> = base;
     for e in extra_names {
         if !seen.contains(e) {
@@ -189,8 +193,14 @@ fn question_menu(svcs: &[RefSvc], extra_names: &[Name]) -> Vec<Q> {
     }
     let _ = svcs;
     let mut v = vec![];
+    let nobody: [Name; 2] = [n("_s._sub._u._udp.local"), n("_x._sub._t._tcp.local")];
     for (nm, odd) in names {
+        // (the subtype names nobody owns: the two question types a subtype name is asked with)
+        let only_ptr_any = nobody.iter().any(|x| name_eq_ci(x, &nm));
         for qt in [T_PTR, T_SRV, T_TXT, T_ANY, T_A, T_AAAA, T_NSEC] {
+            if only_ptr_any && qt != T_PTR && qt != T_ANY {
+                continue;
+            }
             v.push(Q { name: nm.clone(), qtype: qt, odd_case: odd });
         }
     }
